@@ -64,3 +64,14 @@ PROPS["C18"] = {
                     "atoms are independent booleans for normalized/sorted/entails/minimum_n_keys/lift; at_age/at_lock_time are compared with the input policy in which the locks not implied by the given age/time are replaced by 'unsatisfiable'",
                     "existential claims (entails = no, minimum reached, time-lock conflict exists) are checked on a witness found natively by exhaustive search over the atoms"],
 }
+
+PROPS["C12"] = {
+    "level": "translation_validation",
+    "trusted_base": _VM_TB + ["/verif/harness/src/gen/c12.rs: which library entry points were offered each term"],
+    "functions": ["ValidationParams::{intersect, entails, eq} and the stock parameter sets (symbolically, whole domain)", "AbsLockTime/RelLockTime::from_consensus (all u32)", "Threshold::new (all k, n <= 4)", "ExtData::{and_b,and_v,or_*,and_or,cast_*}.timelock_info (symbolic ExtData)",
+                  "natively: Wsh::new, Sh::new, Bare::new, Tr::new, Descriptor::new_*, Descriptor::from_str, Miniscript::from_str(_insane), decode(_consensus), validate"],
+    "bounds": {"quick": "rule level: whole domains. acceptance: class representatives of all base types <= 3 nodes in four contexts (490 terms), 14-16 entry points each; sigless switch decided on all signature-free witnesses <= max_args+1 elements and all lock values",
+               "thorough": "as quick with <= 4 nodes and larger caps"},
+    "outside": ["malleability switch (C03 decides non-malleability behaviourally)", "has_repeated_keys beyond the all-keys-equal instantiation", "strings other than the library's own printed forms", "nesting depth limit"],
+    "assumptions": ["parsers/constructors ran NATIVELY; the solver decided (by constant propagation for the table-only clauses, by SAT for the sigless clause) statements about what was accepted"] + _W_ASSUME[1:],
+}
